@@ -32,7 +32,7 @@ def rand_exit(rng):
 def rand_imp(rng):
     k = rng.choice(["mainnet", "rollup"])
     return dict(kind=k, amt=rng.choice(AMT), meta=rng.choice(META), leaf=rng.choice(["asset", "message"]),
-                r="z" if k == "mainnet" else rng.choice(PART), l=rng.choice(PART))
+                r=("z" if rng.random() < 0.6 else rng.choice(PART)) if k == "mainnet" else rng.choice(PART), l=rng.choice(PART))
 
 
 def random_shapes(rng, n, maxlen):
@@ -46,8 +46,8 @@ def random_shapes(rng, n, maxlen):
         imps, fixed = [], set()
         while len(imps) < ni:
             x = rand_imp(rng)
-            k = (x["kind"], x["r"], x["l"])
-            if set(k[1:]) <= {"z", "max"}:      # a fully determined global index: at most once per certificate
+            k = (x["kind"], x["r"] if x["kind"] == "rollup" else "-", x["l"])   # (junk rollup bits of a mainnet index do not distinguish claims)
+            if set(k[1:]) <= {"z", "max", "-"}:  # a fully determined global index: at most once per certificate
                 if k in fixed:
                     continue
                 fixed.add(k)
